@@ -9,9 +9,10 @@
 //
 // Every case is executed in a supervised child process: a crash (signal, sanitizer abort) or a case that exceeds the
 // per-case wall-clock limit is attributed to exactly that case ({"res":"crash"|"hang"}) and the run continues with the
-// next case in a fresh child (after 5 such cases a shard reports its remaining cases as "skipped").  Decoder inputs live in exact-size heap buffers so that AddressSanitizer sees every
-// read outside the message.  The driver has its OWN encoder and compressor (renderPlan); nothing of the library is
-// used to build a response.
+// next case in a fresh child (after 5 such cases a shard reports its remaining cases as "skipped").  Decoder inputs end
+// at an inaccessible page (GuardBuf); names and whole messages are decoded a second time from an exact-size heap
+// buffer of the ASan+UBSan build: every read outside the message is seen.  The driver has its OWN encoder and
+// compressor (renderPlan); nothing of the library is used to build a response.
 //
 // cache mode: CLOCK_MONOTONIC is virtual (clock_gettime is defined below and interposes libstdc++'s steady_clock);
 // time moves only when the case says so, the purge thread of ExpiringCache sleeps (its deadline is in the far real
@@ -204,6 +205,39 @@ static int runSharded(const std::string &casesPath, const std::string &outPath, 
   return 0;
 }
 
+// ------------------------------------------------------------------------------------------------ exact buffers
+// Decoder inputs end exactly at a PROT_NONE page: a read of even one byte past the message is a SIGSEGV, also when it
+// happens inside uninstrumented library code (libstdc++'s out-of-line std::string::append copies a single character
+// without memcpy, which AddressSanitizer does not see).  Reads before the start stay AddressSanitizer's business.
+struct GuardBuf
+{
+  uint8_t *base = nullptr;
+  size_t cap = 0;
+  GuardBuf()
+  {
+    long pg = sysconf(_SC_PAGESIZE);
+    cap = (size_t)pg * 20; // 80 KiB >= the largest DNS message (64 KiB)
+    base = (uint8_t *)mmap(nullptr, cap + (size_t)pg, PROT_READ | PROT_WRITE, MAP_PRIVATE | MAP_ANONYMOUS, -1, 0);
+    if (base == MAP_FAILED || mprotect(base + cap, (size_t)pg, PROT_NONE) != 0)
+    {
+      fprintf(stderr, "GuardBuf: mmap/mprotect failed\n");
+      _exit(3);
+    }
+  }
+  // the message occupies [p, p + n) and p + n is the first byte of the inaccessible page
+  uint8_t *place(const uint8_t *src, size_t n)
+  {
+    uint8_t *p = base + cap - n;
+    if (n) memcpy(p, src, n);
+    return p;
+  }
+};
+static GuardBuf &guard()
+{
+  static GuardBuf g;
+  return g;
+}
+
 // ------------------------------------------------------------------------------------------------ name mode
 static const int kLabLen[4] = {0, 1, 2, 63};
 
@@ -282,20 +316,35 @@ static std::string nameCase(long, const std::string &line, Shared *)
   std::vector<int> cells;
   parseNameCase(line, cut, cells);
   std::vector<uint8_t> bytes = renderCells(cells, cut);
-  uint8_t *buf = new uint8_t[bytes.size()]; // exact size: any read past the message is an ASan report
-  if (!bytes.empty()) memcpy(buf, bytes.data(), bytes.size());
   std::string name, res;
   long end = 0;
-  try
+  for (int pass = 0; pass < 2; ++pass)
   {
-    end = (long)DnsMessage::decodeName(buf, 0, bytes.size(), name);
-    res = "ok";
+    // pass 0: the message ends at an inaccessible page; pass 1: exact-size heap block (AddressSanitizer redzones)
+    uint8_t *heap = pass ? new uint8_t[bytes.size()] : nullptr;
+    if (heap && !bytes.empty()) memcpy(heap, bytes.data(), bytes.size());
+    uint8_t *buf = pass ? heap : guard().place(bytes.data(), bytes.size());
+    std::string n2, r2;
+    long e2 = 0;
+    try
+    {
+      e2 = (long)DnsMessage::decodeName(buf, 0, bytes.size(), n2);
+      r2 = "ok";
+    }
+    catch (const std::exception &)
+    {
+      r2 = "err";
+    }
+    delete[] heap;
+    if (pass == 0)
+    {
+      name = n2;
+      res = r2;
+      end = e2;
+    }
+    else if (r2 != res || (res == "ok" && (n2 != name || e2 != end)))
+      res = "unstable"; // the same bytes decoded differently: the decoder looked at something outside the message
   }
-  catch (const std::exception &)
-  {
-    res = "err";
-  }
-  delete[] buf;
   std::string s = nameEvHead(cut, cells);
   s += ",\"res\":\"" + res + "\",\"name\":" + (res == "ok" ? nameAsCells(name) : std::string("[]")) +
        ",\"end\":" + std::to_string(res == "ok" ? end : 0) + "}\n";
@@ -662,11 +711,13 @@ static std::vector<uint8_t> renderPlan(const J &plan)
   return e.b;
 }
 
-// parse `n` bytes held in an exact-size heap buffer; 1 = decoded, 0 = DnsParseException / std::exception
-static int parseExact(const uint8_t *src, size_t n, DnsResult *out)
+// parse `n` bytes that end at the inaccessible page (heap = true: in an exact-size heap block instead);
+// 1 = decoded, 0 = DnsParseException / std::exception
+static int parseExact(const uint8_t *src, size_t n, DnsResult *out, bool heap = false)
 {
-  uint8_t *buf = new uint8_t[n];
-  if (n) memcpy(buf, src, n);
+  std::unique_ptr<uint8_t[]> hb(heap ? new uint8_t[n] : nullptr);
+  if (heap && n) memcpy(hb.get(), src, n);
+  uint8_t *buf = heap ? hb.get() : guard().place(src, n);
   int ok = 0;
   try
   {
@@ -678,7 +729,6 @@ static int parseExact(const uint8_t *src, size_t n, DnsResult *out)
   {
     ok = 0;
   }
-  delete[] buf;
   return ok;
 }
 
@@ -825,8 +875,10 @@ static std::string recCase(long idx, const std::string &line, Shared *sh)
   DnsResult r;
   sh->sub = -2;
   int ok = parseExact(bytes.data(), bytes.size(), &r);
+  sh->sub = -3;
+  bool stable = parseExact(bytes.data(), bytes.size(), nullptr, true) == ok; // again from an exact-size heap block
   out = "{\"e\":\"Rec\",\"plan\":" + line + ",\"len\":" + std::to_string(bytes.size()) + ",\"res\":\"" +
-        (ok ? "ok" : "err") + "\"";
+        (!stable ? "unstable" : ok ? "ok" : "err") + "\"";
   if (ok)
     out += decodedJson(r);
   else
